@@ -1,4 +1,5 @@
 import RjModel.Lemmas.SyncLemmas
+import RjModel.Lemmas.CrashLemmas
 import RjModel.Model.FileRecv
 /-! # C08 — an interrupted or failed sync can always be repaired by running it again
 (the doer never leaves a file that carries the source's modification time but different bytes) -/
@@ -150,5 +151,61 @@ theorem C08_recovery_fs {fs0 : FS} {r : FPath} {ld : List (FPath × Node)} {src 
   rcases this with h | ⟨b', h, -⟩
   · exact h
   · exact absurd h (hne b')
+
+/-! ### every crash point (entry granularity) -/
+
+/-- what a second run achieves from a destination state `fsk`, given any complete, parents-first listing of it -/
+def Repairs (fs0 fsk : FS) (r : FPath) (src : FPath → Option SEntry) (ls : List (FPath × SEntry)) : Prop :=
+  ∀ ld' : List (FPath × Node),
+    (∀ p n, (p, n) ∈ ld' ↔ (p ≠ [] ∧ fsk.get (r ++ p) = some n)) → ld'.Pairwise (fun a b => ¬ b.1 <+: a.1) →
+    ∃ fs', syncDest fsk r src ls ld' = .ok fs' ∧
+      (∀ q, ¬ r <+: q → fs'.get q = fs0.get q) ∧
+      ∀ p, p ≠ [] → MirrorAt fsk fs' r p (src p)
+
+theorem repairs_of_closed {fs0 fsk : FS} {r : FPath} {src : FPath → Option SEntry} {ls : List (FPath × SEntry)}
+    (hs : SrcWF (fun _ => true) src ls)
+    (hroot : fsk.get r = some .folder) (hanc : ∀ k, k < r.length → fsk.get (r.take k) = some .folder)
+    (hclosed : ∀ p, p ≠ [] → fsk.get (r ++ p) ≠ none → fsk.get (r ++ p.dropLast) = some .folder)
+    (hout : ∀ q, ¬ r <+: q → fsk.get q = fs0.get q) : Repairs fs0 fsk r src ls := by
+  intro ld' hl hpf
+  have hw' : DestWF (fun _ => true) fsk r ld' :=
+    ⟨hroot, hanc, hclosed, fun p n => by rw [hl p n]; simp, hpf⟩
+  obtain ⟨fs', h1, h2, -, h4, -⟩ := sync_mirror hw' hs (fun _ _ _ _ _ => rfl)
+  exact ⟨fs', h1, fun q hq => by rw [h2 q hq, hout q hq], fun p hp => h4 p hp rfl⟩
+
+/-- **Recovery from a crash anywhere in the delete phase**: after *any* prefix `done` of the planned deletions — the
+state a crash, a lost link or a failing later call leaves behind — the calls made so far all succeeded, and from the state
+they left a second run (on any complete, parents-first listing of that state) ends `ok` in the mirror of the source,
+changing nothing outside the root. -/
+theorem C08_recovery_from_crash_in_delete_phase {fs0 : FS} {r : FPath} {ld : List (FPath × Node)} {src : FPath → Option SEntry}
+    {ls : List (FPath × SEntry)} (hw : DestWF (fun _ => true) fs0 r ld) (hs : SrcWF (fun _ => true) src ls)
+    (done rest : List (FPath × Node)) (hsplit : planDel src ld = done ++ rest) :
+    ∃ fsk, runOps (fun f x => delOp f r x) fs0 done = .ok fsk ∧ Repairs fs0 fsk r src ls := by
+  have hsafe : ∀ p c n, (p, Node.folder) ∈ planDel src ld → fs0.get (r ++ (p ++ [c])) = some n → (fun _ => true) (p ++ [c]) = true :=
+    fun _ _ _ _ _ => rfl
+  obtain ⟨fsk, hrun, hin, hout⟩ := run_dels_gen hw hs hsafe done rest [] fs0 (by simpa using hsplit) (by simp) (fun _ _ => rfl)
+  simp only [List.nil_append] at hin
+  obtain ⟨hroot, hclosed⟩ := dels_prefix_closed hw hs hsafe done rest hsplit fsk hin
+  refine ⟨fsk, hrun, repairs_of_closed hs hroot ?_ hclosed hout⟩
+  intro k hk
+  rw [hout _ (not_prefix_of_shorter r k hk)]; exact hw.rootAnc k hk
+
+/-- **Recovery from a crash anywhere in the copy phase**: after all deletions and *any* prefix `done` of the planned
+creations, the same. -/
+theorem C08_recovery_from_crash_in_copy_phase {fs0 : FS} {r : FPath} {ld : List (FPath × Node)} {src : FPath → Option SEntry}
+    {ls : List (FPath × SEntry)} (hw : DestWF (fun _ => true) fs0 r ld) (hs : SrcWF (fun _ => true) src ls)
+    (done rest : List (FPath × SEntry)) (hsplit : planCpy (fun p => fs0.get (r ++ p)) ls = done ++ rest) :
+    ∃ fs1 fsk, runOps (fun f x => delOp f r x) fs0 (planDel src ld) = .ok fs1 ∧
+      runOps (fun f x => cpyOp f r x) fs1 done = .ok fsk ∧ Repairs fs0 fsk r src ls := by
+  have hsafe : ∀ p c n, (p, Node.folder) ∈ planDel src ld → fs0.get (r ++ (p ++ [c])) = some n → (fun _ => true) (p ++ [c]) = true :=
+    fun _ _ _ _ _ => rfl
+  obtain ⟨fs1, hd, hd1, hd2⟩ := run_dels hw hs hsafe (planDel src ld) [] fs0 (by simp) (by simp) (fun _ _ => rfl)
+  obtain ⟨fsk, hrun, hin, hout⟩ := run_cpys_gen hw hs done rest [] fs1 (by simpa using hsplit)
+    (by intro q; simp only [List.map_nil, List.not_mem_nil, ↓reduceIte, afterDels]; exact hd1 q) hd2
+  simp only [List.nil_append] at hin
+  obtain ⟨hroot, hclosed⟩ := cpys_prefix_closed hw hs hsafe done rest hsplit fsk hin
+  refine ⟨fs1, fsk, hd, hrun, repairs_of_closed hs hroot ?_ hclosed hout⟩
+  intro k hk
+  rw [hout _ (not_prefix_of_shorter r k hk)]; exact hw.rootAnc k hk
 
 end Rj.C08
